@@ -104,10 +104,6 @@ theorem regIndices_eq {rs : Regs} {n : String} {l : List Nat} (h : regIndices rs
     exact ⟨o, sz, ho, hs, h.symm⟩
   · simp at h
 
-/-- an argument respects its register: an index, if present, is inside the register -/
-def Arg.inRange (rs : Regs) (a : Arg) : Prop :=
-  ∀ i, a.idx = some i → ∃ sz, regSize rs a.name = some sz ∧ i < sz
-
 theorem firstIndex_some_regSize {rs : Regs} {n : String} {o : Nat}
     (h : firstIndex rs n = some o) : ∃ sz, regSize rs n = some sz := by
   induction rs generalizing o with
@@ -122,15 +118,33 @@ theorem firstIndex_some_regSize {rs : Regs} {n : String} {o : Nat}
       obtain ⟨a, ha, _⟩ := h
       simpa [hm] using ih ha
 
-/-- the qubits of an in-range argument lie inside the circuit -/
+/-- `convert_indexed_qubit` accepts exactly the indices inside the register -/
+theorem indexedQubit_eq {rs : Regs} {n : String} {i q : Nat} (h : indexedQubit rs n i = some q) :
+    ∃ o sz, firstIndex rs n = some o ∧ regSize rs n = some sz ∧ i < sz ∧ q = o + i := by
+  unfold indexedQubit at h
+  split at h
+  · rename_i o sz ho hs
+    split at h
+    · rename_i hlt
+      simp only [Option.some.injEq] at h
+      exact ⟨o, sz, ho, hs, hlt, h.symm⟩
+    · simp at h
+  · simp at h
+
+theorem indexedQubit_of {rs : Regs} {n : String} {o sz i : Nat}
+    (ho : firstIndex rs n = some o) (hs : regSize rs n = some sz) (hi : i < sz) :
+    indexedQubit rs n i = some (o + i) := by
+  simp [indexedQubit, ho, hs, hi]
+
+/-- the qubits of an accepted argument lie inside the circuit -/
 theorem argIndices_lt_total {rs : Regs} {a : Arg} {l : List Nat}
-    (h : argIndices rs a = some l) (hr : a.inRange rs) : ∀ q ∈ l, q < totalSize rs := by
+    (h : argIndices rs a = some l) : ∀ q ∈ l, q < totalSize rs := by
   unfold argIndices at h
   cases hi : a.idx with
   | some i =>
     simp only [hi, Option.map_eq_some_iff] at h
-    obtain ⟨o, ho, rfl⟩ := h
-    obtain ⟨sz, hs, hlt⟩ := hr i hi
+    obtain ⟨q0, hq0, rfl⟩ := h
+    obtain ⟨o, sz, ho, hs, hlt, rfl⟩ := indexedQubit_eq hq0
     intro q hq
     simp only [List.mem_cons, List.not_mem_nil, or_false] at hq
     subst hq
@@ -149,16 +163,12 @@ theorem anylist_elementwise {rs : Regs} {as : List Arg} {l : List Nat}
     (h : anylistIndices rs as = some l) :
     ∃ ls, as.mapM (argIndices rs) = some ls ∧ l = ls.flatten := by
   unfold anylistIndices at h
-  simp only at h
-  split at h
-  · simp at h
-  · simp only [Option.map_eq_some_iff] at h
-    obtain ⟨ls, hls, rfl⟩ := h
-    exact ⟨ls, hls, rfl⟩
+  simp only [Option.map_eq_some_iff] at h
+  obtain ⟨ls, hls, rfl⟩ := h
+  exact ⟨ls, hls, rfl⟩
 
 theorem mapM_flatten_lt {rs : Regs} (as : List Arg) (ls : List (List Nat))
-    (h : as.mapM (argIndices rs) = some ls) (hr : ∀ a ∈ as, a.inRange rs) :
-    ∀ q ∈ ls.flatten, q < totalSize rs := by
+    (h : as.mapM (argIndices rs) = some ls) : ∀ q ∈ ls.flatten, q < totalSize rs := by
   induction as generalizing ls with
   | nil =>
     simp only [List.mapM_nil, Option.pure_def, Option.some.injEq] at h
@@ -170,14 +180,65 @@ theorem mapM_flatten_lt {rs : Regs} (as : List Arg) (ls : List (List Nat))
     intro q hq
     simp only [List.flatten_cons, List.mem_append] at hq
     rcases hq with hq | hq
-    · exact argIndices_lt_total hl (hr a (by simp)) q hq
-    · exact ih ls' hls' (fun a' ha' => hr a' (by simp [ha'])) q hq
+    · exact argIndices_lt_total hl q hq
+    · exact ih ls' hls' q hq
 
-/-- all qubits of a list of in-range arguments lie inside the circuit -/
+/-- all qubits of an accepted argument list lie inside the circuit -/
 theorem anylist_lt_total {rs : Regs} {as : List Arg} {l : List Nat}
-    (h : anylistIndices rs as = some l) (hr : ∀ a ∈ as, a.inRange rs) :
-    ∀ q ∈ l, q < totalSize rs := by
+    (h : anylistIndices rs as = some l) : ∀ q ∈ l, q < totalSize rs := by
   obtain ⟨ls, hls, rfl⟩ := anylist_elementwise h
-  exact mapM_flatten_lt as ls hls hr
+  exact mapM_flatten_lt as ls hls
+
+
+/-! ## the classical bit index of `measure q[k] -> c[j]` -/
+
+/-- an accepted classical bit index is inside its register -/
+theorem clbitOk_lt {cregs : Regs} {name : String} {j sz : Nat}
+    (hs : regSize cregs name = some sz) (h : clbitOk cregs name j = true) : j < sz := by
+  induction cregs with
+  | nil => simp [regSize] at hs
+  | cons r rest ih =>
+    obtain ⟨n, s⟩ := r
+    simp only [clbitOk, List.any_cons, Bool.not_eq_true', Bool.or_eq_false_iff,
+      Bool.and_eq_false_iff, beq_eq_false_iff_ne, ne_eq, decide_eq_false_iff_not, Nat.not_le] at h
+    simp only [regSize] at hs
+    split at hs
+    · rename_i hn
+      simp only [Option.some.injEq] at hs
+      subst hs
+      rcases h.1 with h1 | h1
+      · exact absurd hn h1
+      · exact h1
+    · exact ih hs (by simp [clbitOk, h.2])
+
+/-- with distinct register names the check is exactly "below the size of the register" -/
+theorem clbitOk_of_lt {cregs : Regs} (hnd : (cregs.map Prod.fst).Nodup) {name : String}
+    {j sz : Nat} (hs : regSize cregs name = some sz) (hj : j < sz) :
+    clbitOk cregs name j = true := by
+  induction cregs with
+  | nil => simp [regSize] at hs
+  | cons r rest ih =>
+    obtain ⟨n, s⟩ := r
+    simp only [List.map_cons, List.nodup_cons] at hnd
+    simp only [regSize] at hs
+    simp only [clbitOk, List.any_cons, Bool.not_eq_true', Bool.or_eq_false_iff,
+      Bool.and_eq_false_iff, beq_eq_false_iff_ne, ne_eq, decide_eq_false_iff_not, Nat.not_le]
+    split at hs
+    · rename_i hn
+      simp only [Option.some.injEq] at hs
+      subst hs
+      refine ⟨Or.inr hj, ?_⟩
+      rw [List.any_eq_false]
+      intro r hr
+      have : r.1 ≠ name := by
+        intro he
+        apply hnd.1
+        rw [hn, ← he]
+        exact List.mem_map_of_mem hr
+      simp [this]
+    · rename_i hn
+      refine ⟨Or.inl hn, ?_⟩
+      have := ih hnd.2 hs
+      simpa [clbitOk] using this
 
 end BqVerif.Qasm
